@@ -107,6 +107,7 @@ class Interp:
     # ------------------------------------------------------------------ names
     def lookup(self, name, env):
         if name in env.locals and name not in env.globals_decl:
+            if env.locals[name] is UNBOUND: raise RaiseSignal('UnboundLocalError', name)
             v = env.locals[name]
             if isinstance(v, Carried): raise Unsupported('loop-carried dependence on %s' % name)
             return v
@@ -533,6 +534,25 @@ class Interp:
             raise RaiseSignal('AttributeError', attr)
         return L.getattr_builtin(self, o, attr)
 
+    _assigned_cache = {}
+
+    def _assigned_names(self, node):
+        k = id(node)
+        if k not in self._assigned_cache:
+            names = set(); glob = set()
+            def walk(n):
+                for c in ast.iter_child_nodes(n):
+                    if isinstance(c, (ast.FunctionDef, ast.Lambda, ast.ClassDef)):
+                        if isinstance(c, ast.FunctionDef): names.add(c.name)
+                        continue
+                    if isinstance(c, (ast.ListComp, ast.GeneratorExp, ast.SetComp, ast.DictComp)): continue
+                    if isinstance(c, ast.Name) and isinstance(c.ctx, ast.Store): names.add(c.id)
+                    if isinstance(c, ast.Global): glob.update(c.names)
+                    walk(c)
+            walk(node)
+            self._assigned_cache[k] = names - glob
+        return self._assigned_cache[k]
+
     def _is_static(self, fv):
         for d in fv.node.decorator_list:
             if isinstance(d, ast.Name) and d.id == 'staticmethod': return True
@@ -618,8 +638,11 @@ class Interp:
             else: raise RaiseSignal('TypeError', 'missing kw ' + ko.arg)
         if a.kwarg: env.locals[a.kwarg.arg] = dict(kw)
         elif kw: raise RaiseSignal('TypeError', 'unexpected keyword %s' % list(kw))
+        if isinstance(node, ast.FunctionDef):
+            for nn in self._assigned_names(node):
+                if nn not in env.locals: env.locals[nn] = UNBOUND
         self.depth += 1
-        if f.name.endswith('._run') or f.name.endswith('.run_tvec'): self.run.run_locals = env.locals
+        if f.name.endswith('._run') or f.name.endswith('.run_tvec') or f.name.endswith('.driver'): self.run.run_locals = env.locals
         try:
             if isinstance(node, ast.Lambda): return self.eval(node.body, env)
             try:
@@ -650,6 +673,7 @@ class GenIter:
 
 
 GENERIC = Marker('generic-iteration')
+UNBOUND = Marker('unbound-local')
 IDXSYM = sp.Symbol('i_generic', integer=True, nonnegative=True)
 
 
